@@ -870,13 +870,35 @@ func ruleC13_2(c *Ctx) {
 	askK, _ := p.ConstInt(pkgCodec, "RspAsk")
 	f := ssa.Value(on.Params[4])
 	var resend, asking ssa.CallInstruction
-	for _, call := range p.callsIn(on, enq) {
-		if strip(call.Common().Args[0]) == f {
+	// the connection each of them is queued on, as a value of OnMoved (a helper's parameter is resolved to what this
+	// call site passes: two calls of pool.Get() are two connections), and the call's place in OnMoved
+	recvOf := map[ssa.CallInstruction]ssa.Value{}
+	placeOf := map[ssa.CallInstruction]ssa.Instruction{}
+	resolve := func(v ssa.Value) ssa.Value {
+		v = strip(v)
+		for i := 0; i < 3; i++ {
+			b, ok := boundParam(v)
+			if !ok {
+				break
+			}
+			v = strip(b)
+		}
+		return v
+	}
+	p.virtualCalls(on, []*ssa.Function{enq}, func(call ssa.CallInstruction) {
+		recv := call.Common().Value
+		if !call.Common().IsInvoke() && len(call.Common().Args) > 0 {
+			recv = call.Common().Args[0]
+		}
+		recvOf[call] = resolve(recv)
+		placeOf[call] = lift(call.(ssa.Instruction), on)
+		arg := call.Common().Args[len(call.Common().Args)-1]
+		if resolve(arg) == f {
 			resend = call
 		} else {
 			asking = call
 		}
-	}
+	})
 	if resend == nil {
 		c.bad("OnMoved: re-send", p.pos(on.Pos()), "the redirected fragment is never queued on the target connection")
 		return
@@ -917,8 +939,9 @@ func ruleC13_2(c *Ctx) {
 		return ok && op == token.EQL && isK && k == askK && isT && strip(base) == f
 	})
 	c.check(okG, "OnMoved: ASKING only for ASK redirects", c.at(asking), "on f.Type == RspAsk", "ASKING is not sent exactly for ASK redirects", withGuards(gs))
-	sameConn := expr(strip(asking.Common().Value)) == expr(strip(resend.Common().Value))
-	before := canReach(asking.(ssa.Instruction), resend.(ssa.Instruction)) && !canReach(resend.(ssa.Instruction), asking.(ssa.Instruction))
+	sameConn := recvOf[asking] != nil && recvOf[asking] == recvOf[resend]
+	pa, pr := placeOf[asking], placeOf[resend]
+	before := pa != nil && pr != nil && pa != pr && canReach(pa, pr) && !canReach(pr, pa)
 	c.check(sameConn && before, "OnMoved: ASKING on the target connection right before the request", c.at(asking), "same connection, queued first", "ASKING is queued on another connection than the re-sent request, or after it")
 	// its reply belongs to nobody
 	isDiscard := false
@@ -926,6 +949,20 @@ func ruleC13_2(c *Ctx) {
 		if (w.Fn == home || homeFn(w.Fn) == on) && strip(w.Base) == af {
 			if k, ok := w.Val.(*ssa.Const); ok && k.Value.String() == "true" {
 				isDiscard = true
+			}
+		}
+	}
+	// ... and it stays anonymous: conn.sread recognises the proxy's own fragments by Owner == nil, before any request
+	// is completed with their reply
+	for _, fname := range []string{"Owner", "Peer"} {
+		ff := p.Field(pkgCore, "Frag", fname)
+		if ff == nil {
+			continue
+		}
+		for _, w := range p.fieldWrites(ff) {
+			if (w.Fn == home || homeFn(w.Fn) == on) && strip(w.Base) == af && !isNilConst(w.Val) {
+				c.bad("OnMoved: the ASKING fragment has no owner and no request", c.at(w.Instr), "the proxy's own ASKING fragment is given the redirected request's "+fname+": conn.sread skips only fragments without an owner, so the +OK that answers ASKING completes the client's request (Done, reply +OK) - "+
+					"if another reply for that client is flushed before the real one arrives, the client receives +OK as the answer to the redirected command and the real reply lands in a recycled request")
 			}
 		}
 	}
